@@ -167,8 +167,7 @@ def r4_index_checked(ck, F):
     ck.ob(R, "insert-callers", set(callers) <= {A("writer_insert"), A("writer_into_inner")}, f"BlockWriter::insert is called from {callers}", config=F.config, nontrivial=False)
 
 
-def r5_limit_asserts(ck, F):
-    R = "C18-R5"
+def r5_limit_asserts(ck, F, R="C18-R5"):
     b = F.body(A("bw_insert"))
     found = 0
     for site, st in b.sites():
